@@ -22,7 +22,11 @@ namespace
     }
     value diag_tickTime_(runtime& runtime)
     {
+#ifdef SQFVM_RUNTIME_VERIF
+        auto curtime = sqf::verif::now().time_since_epoch();
+#else
         auto curtime = std::chrono::system_clock::now().time_since_epoch();
+#endif // SQFVM_RUNTIME_VERIF
         auto starttime = runtime.runtime_timestamp().time_since_epoch();
         // Time is since beginning of game so long is fine.
         long long r = static_cast<long long>(std::chrono::duration_cast<std::chrono::milliseconds>(curtime - starttime).count());
